@@ -284,6 +284,41 @@ Proof.
   apply Rinv_le_contravar; lra.
 Qed.
 
+(* ==================================================================== *)
+(* crop coefficient from the development progress *)
+
+Lemma relint_range (sum tsum : R) : 0 <= sum -> 0 < tsum -> 0 <= relint_of sum tsum <= 1.
+Proof.
+  intros Hs Ht. unfold relint_of. rn.
+  assert (0 <= sum / tsum) by (unfold Rdiv; apply Rmult_le_pos; [assumption | left; apply Rinv_0_lt_compat; assumption]).
+  destruct (Rlt_dec 1 (sum / tsum)); lra.
+Qed.
+
+(* the crop coefficient is a convex combination of the two tabulated values: between them, hence >= 0 for non-negative tables *)
+Lemma fkc_between (b : bool) (kcini kp kk r : R) : 0 <= r <= 1 ->
+  let lo := if b then Rmin kcini kk else Rmin kp kk in
+  let hi := if b then Rmax kcini kk else Rmax kp kk in
+  lo <= fkc_of b kcini kp kk r <= hi.
+Proof.
+  intros Hr. unfold fkc_of. destruct b; rsimp; unfold Rmin, Rmax;
+    repeat match goal with |- context [Rle_dec ?a ?b] => destruct (Rle_dec a b) end; split; nra.
+Qed.
+
+Lemma fkc_nonneg (b : bool) (kcini kp kk r : R) : 0 <= r <= 1 -> 0 <= kcini -> 0 <= kp -> 0 <= kk -> 0 <= fkc_of b kcini kp kk r.
+Proof.
+  intros Hr H1 H2 H3. pose proof (fkc_between b kcini kp kk r Hr) as H. cbv zeta in H.
+  destruct b; unfold Rmin in H; repeat match type of H with context [Rle_dec ?a ?b] => destruct (Rle_dec a b) end; lra.
+Qed.
+
+Lemma fkc_pre_nonneg (kcini k0 s t : R) : 0 <= s <= t -> 0 < t -> 0 <= kcini -> 0 <= k0 -> 0 <= fkc_pre kcini k0 s t.
+Proof.
+  intros Hs Ht H1 H2. unfold fkc_pre. rsimp.
+  assert (Hq : 0 <= s / t <= 1).
+  { split; [unfold Rdiv; apply Rmult_le_pos; [lra | left; apply Rinv_0_lt_compat; lra]|].
+    apply (Rmult_le_reg_r t); [lra|]. unfold Rdiv. rewrite Rmult_assoc, Rinv_l by lra. lra. }
+  replace ((k0 - kcini) * s / t) with ((k0 - kcini) * (s / t)) by (unfold Rdiv; ring). nra.
+Qed.
+
 (* innermost comparisons first (for closed instances) *)
 Ltac nodec t := lazymatch t with context [Rlt_dec] => fail | context [Rle_dec] => fail | context [Req_EM_T] => fail | _ => idtac end.
 Ltac icases :=
